@@ -35,6 +35,9 @@ ob("O-C10-slice-model", ["C10"], J, "c10_slice_model", "top level: for all optio
 ob("O-C10-chars2", ["C10", "C13", "C05"], J, "c10_skip_take_chars_2", "skip_take_chars: the one position model applied to the character count of a text string (characters as bstr decodes them, every invalid byte one character), returned as byte offsets of character boundaries - slicing text never splits a character and never leaves the string; all positions and bounds", [LIB + "skip_take_chars"], label="bounded", bound="all byte strings of length <= 2 (valid and invalid UTF-8), all positions", composes_dependency=True)
 ob("O-C10-chars3", ["C10", "C13", "C05"], J, "c10_skip_take_chars_3", "skip_take_chars: the same on all byte strings of length <= 3", [LIB + "skip_take_chars"], label="bounded", bound="all byte strings of length <= 3, all positions", composes_dependency=True, tier="thorough")
 
+for kind, fn in (("text", "skip_take_chars (character positions)"), ("bytes", "skip_take_bytes")):
+    ob(f"O-C10-range-{kind}", ["C10", "C02", "C13"], J, f"c10_range_dispatch_{kind}", f"Val::range (`.[a:b]` read) on a {kind} string asks {fn} and returns exactly the part that function selects (the position functions are replaced by ghost stubs that record who was called; their own contracts are O-C10-chars*, O-C10-skiptake-bytes)", [LIB + "Val::range", LIB + "Val::range_int"], label="point", kind="point", stubs=["skip_take_chars", "skip_take_bytes"])
+
 # ------------------------------------------------------------------------------------ C08
 ob("O-C08-float", ["C08"], J, "c08_float_cmp_order", "float_cmp is a total preorder on non-NaN floats (reflexive, antisymmetric, transitive over all triples), float_eq <=> Equal, and it agrees with IEEE <, ==, > (so -inf < finite < +inf, -0 == +0)", [NUM + "float_cmp", NUM + "float_eq"])
 for k, kinds in (("ii", "Int,Int"), ("if", "Int,Float"), ("fi", "Float,Int"), ("ff", "Float,Float")):
@@ -176,7 +179,7 @@ CFG = {
         "C09": {
             "level": "proof",
             "explanation": "Exactness of + - neg % on machine integers against i128 arithmetic for all 2^128 operand pairs, routing of * through checked_mul, fall-back entered with the same operands; result kinds and IEEE values of every mixed / float operation (+ - * /) bit for bit; observers. In those harnesses the fall-back int_or_big is replaced by a ghost-recording stub; its own contract (operands converted and passed in order, result wrapped) is O-C09-iob, and the operator applied by each fall-back closure is pinned at boundary points (O-C09-big-arith).",
-            "not_decided": "BigInt x BigInt arithmetic (num-bigint), which operator the fall-back closure applies (pinned only by the test suite), float % values (fmod), object +/* merging, array -, string / splitting, Dec operands, Val-level dispatch",
+            "not_decided": "BigInt x BigInt arithmetic (num-bigint) beyond the points, which operator the fall-back closures of `*` and of `%` apply (num-bigint products and remainders exhaust CBMC even on concrete operands), float % values (fmod), object +/* merging, array -, string / splitting, Dec operands, Val-level dispatch",
             "assumptions": ["core::isize::checked_mul is the exact product when Some, and the primitive isize % is the truncated remainder (64x64->128 multiplier / divider equivalences are SAT-hard; trusted to core)"],
         },
         "C13": {
